@@ -69,3 +69,33 @@ contract(
          'otherwise exactly _build_partial(callable, args, kwargs) — i.e. nested ArgFactories in the '
          'arguments (also inside containers) are always handled by _build_partial, never passed through',
 )
+
+
+# --- _promote_arg_factory (C04) -----------------------------------------------------------------------
+contains_af = z3.Function('contains_arg_factory', Val, B)     # _contains_arg_factory(value)
+
+contract('partial._contains_arg_factory', F, '_contains_arg_factory', abstract=True, params=['value'],
+         ensures=lambda c: c.result == VBool(contains_af(c['value'])), allocates=True,
+         note='assumed: a pure predicate of the (nested) value — whether a _BuiltArgFactory is reachable in it')
+
+
+def _paf_post(c):
+  h0, h = c.old, c.heap
+  a = c['arg']
+  r = ref(c.result)
+  keep = z3.Or(isref(h0, a, '_BuiltArgFactory'), z3.Not(contains_af(a)))
+  return z3.If(keep, c.result == a,
+               z3.And(is_VRef(c.result), r >= h0.alloc, cls_is(h.cls(r), '_BuiltArgFactory'),
+                      is_VRef(h.fld(r, 'factory')), ref(h.fld(r, 'factory')) >= h0.alloc,
+                      cls_is(h.cls(ref(h.fld(r, 'factory'))), 'functools.partial')))
+
+
+contract(
+    'partial._promote_arg_factory', F, '_promote_arg_factory',
+    requires=lambda c: z3.BoolVal(True), ensures=_paf_post,
+    writes=('factory',), props=('C04',),
+    note='an argument that is a built ArgFactory, or holds none, is passed on as it is (the same '
+         'object: containers without ArgFactory are never copied); otherwise it becomes a fresh '
+         '_BuiltArgFactory around a fresh functools.partial (of _invoke_arg_factories and the argument); '
+         'nothing that existed is modified (frame)',
+)
